@@ -372,6 +372,10 @@ func (rn *runner) traceHelper(op *Op) {
 		if op.Body != "" {
 			req.Body = io.NopCloser(strings.NewReader(op.Body))
 			req.ContentLength = int64(len(op.Body))
+			if op.N == -1 { // length unknown to the server (chunked / streamed body)
+				req.ContentLength = -1
+				req.TransferEncoding = []string{"chunked"}
+			}
 		}
 		return req
 	}
@@ -380,7 +384,7 @@ func (rn *runner) traceHelper(op *Op) {
 	w.keep = true
 	res, _ := guard(func() { mux.Trace(w, mk(), op.Flag) })
 	w.finish()
-	line := obj("ev", js("tracehelper"), "method", js(op.Method), "path", js(op.Path), "hdr", jmap(op.Hdr), "body", js(op.Body), "flag", jbool(op.Flag),
+	line := obj("ev", js("tracehelper"), "method", js(op.Method), "path", js(op.Path), "hdr", jmap(op.Hdr), "body", js(op.Body), "flag", jbool(op.Flag), "unknownLen", jbool(op.N == -1),
 		"status", jint(w.status), "ct", js(w.sent.Get("Content-Type")), "out", js(string(w.buf)), "dump", js(string(dump)), "dumpok", jbool(derr == nil), "res", js(res))
 	if !rn.nodedup {
 		if rn.seen["T"+line] {
